@@ -1,7 +1,11 @@
 #!/bin/bash
-# Re-evaluate every stored seeded change against the current checks (quick tier of the property's own check).
+# Re-evaluate every stored seeded change against the current checks (quick tier of the property's own check, plus the
+# extra checks named below).  SEED_REUSE=1 keeps the recorded confirmation (tests + demo) and re-runs only the checks.
+# usage: tools/seed_all.sh [jobs]
 cd /verif
-for d in seeded/*/; do
-  id=$(basename $d); prop=$(/venv/bin/python -c "import json;print(json.load(open('$d/meta.json'))['property'])")
-  echo "=== $id"; tools/seed_eval.py $d $id $prop $prop "$@" 2>&1 | tail -1
-done
+jobs=${1:-1}
+extra() { case "$1" in C19-w3a) echo "C18";; *) echo "";; esac; }
+export -f extra
+ls -d seeded/*/ | xargs -P "$jobs" -I{} bash -c '
+  d={}; id=$(basename $d); prop=$(/venv/bin/python -c "import json;print(json.load(open(\"$d/meta.json\"))[\"property\"])")
+  out=$(tools/seed_eval.py $d $id $prop $prop $(extra $id) 2>&1 | tail -1); echo "=== $id $out"'
